@@ -850,6 +850,9 @@ def step (st : St) (line : String) : St × String :=
     | some u => edgeRes { st with lastLt := lockTrace st (.isolate u) line } (if st.directed then Di.isolate st.s u else Un.isolate st.s u)
     | none => (st, "bad-op")
   | ["lt"] => (st, s!"lt={st.lastLt}")
+  -- priority-first traversals over node values that the closure changes: the heap's behaviour is unspecified, the request
+  -- is judged by the harness (C07 oracle, C15 differential) and skipped by the line comparison
+  | "pfsmut" :: _ => (st, "unmodelled")
   | ["dump"] => (st, dump st)
   | ["obs", u] => match u.toNat? with
     | some u => (st, obs st u)
